@@ -3,7 +3,7 @@
 // (spawned by its constructor through the shimmed std::thread), producers, ForceFlush callers, Shutdown callers.
 // The exporter is a harness class whose Export / ForceFlush / Shutdown are scheduling points.
 //
-//   bsp|blp <maxq>[r|f|g|a] <maxb> <nprod> <adds> <flushers: e.g. i2f> <nshut> <exporter script> ; <action> ; ...
+//   bsp|blp <maxq>[r|f|g|a] <maxb> <nprod> <adds> <flushers: e.g. i2f> <nshut>[:<timeouts, e.g. i1>] <exporter script> ; <action> ; ...
 //     maxq suffix = how the processor is built: none = (exporter, options) constructor, r = (exporter, options, runtime
 //       options) constructor, f / g = the factory's Create with two / three arguments, a = (logs only) the constructor
 //       taking the three numbers.  They must all configure the same processor.
@@ -164,9 +164,22 @@ static std::string handle(const std::vector<std::string> &t)
     ctor = ops[0][0].back();
     ops[0][0].pop_back();
   }
+  // <nshut> or <nshut>:<one char per Shutdown caller>: 'i' = Shutdown() (no timeout), digit k = Shutdown(k * schedule_delay / 4)
+  std::string shspec;
+  {
+    auto colon = ops[0][5].find(':');
+    if (colon != std::string::npos)
+    {
+      shspec = ops[0][5].substr(colon + 1);
+      ops[0][5].resize(colon);
+    }
+  }
   if (!num(ops[0][0], maxq) || !num(ops[0][1], maxb) || !num(ops[0][2], nprod) || !num(ops[0][3], adds) ||
       !num(ops[0][5], nshut))
     return "bad-op";
+  if (!shspec.empty() && shspec.size() != nshut) return "bad-op";
+  for (char c : shspec)
+    if (c != 'i' && !(c >= '0' && c <= '9')) return "bad-op";
   std::string fl = ops[0][4] == "-" ? "" : ops[0][4];
   std::string xs = ops[0][6] == "-" ? "" : ops[0][6];
   for (char c : fl)
@@ -278,10 +291,13 @@ static std::string handle(const std::vector<std::string> &t)
   }
   for (size_t s = 0; s < nshut; s++)
   {
-    detsched::spawn([&] {
+    char c = s < shspec.size() ? shspec[s] : 'i';
+    detsched::spawn([&, c] {
       detsched::point("begin", nullptr);
       detsched::note("shutdown-begin");
-      bool r = proc->Shutdown();
+      // a finite timeout bounds how long the caller is prepared to wait; it must not make Shutdown lose what was queued
+      bool r = c == 'i' ? proc->Shutdown()
+                        : proc->Shutdown(std::chrono::duration_cast<std::chrono::microseconds>(delay * (c - '0')) / 4);
       detsched::note(std::string("shutdown-ret ") + (r ? "1" : "0"));
     });
   }
